@@ -300,3 +300,62 @@ def abs_of_det(fn_node):
                 if has_det and not has_sum:
                     out.append(n)
     return out
+
+
+def one_sided_filter_of_det(fn_node):
+    """Ordering comparisons of the *signed* determinant-derived weights whose result selects which terms are kept.
+
+    `volumes = det(..) / 6; keep = volumes > tol; simplices, volumes = simplices[keep], volumes[keep]` drops every
+    negatively oriented tetrahedron: the regions a non-star-shaped solid sweeps twice no longer cancel. A filter on the
+    magnitude (`np.abs(volumes) > tol`) keeps both signs and is not reported. Returns the Compare nodes."""
+    det_names = set()
+    changed = True
+    assigns = [n for n in ast.walk(fn_node) if isinstance(n, ast.Assign) and len(n.targets) == 1 and isinstance(n.targets[0], ast.Name)]
+
+    def signed_det(e):
+        """expression carries the sign of a determinant: det(..) itself, a det-derived name, or either scaled by a constant"""
+        if isinstance(e, ast.Call) and ast.unparse(e.func).endswith("linalg.det"):
+            return True
+        if isinstance(e, ast.Name):
+            return e.id in det_names
+        if isinstance(e, ast.BinOp) and isinstance(e.op, (ast.Mult, ast.Div)):
+            if isinstance(e.right, ast.Constant) and isinstance(e.right.value, (int, float)) and e.right.value > 0:
+                return signed_det(e.left)
+            if isinstance(e.op, ast.Mult) and isinstance(e.left, ast.Constant) and isinstance(e.left.value, (int, float)) and e.left.value > 0:
+                return signed_det(e.right)
+        return False
+
+    while changed:
+        changed = False
+        for a in assigns:
+            if a.targets[0].id not in det_names and signed_det(a.value):
+                det_names.add(a.targets[0].id)
+                changed = True
+    masks = {}
+    for n in ast.walk(fn_node):
+        if isinstance(n, ast.Compare) and len(n.ops) == 1 and isinstance(n.ops[0], (ast.Gt, ast.GtE, ast.Lt, ast.LtE)):
+            if signed_det(n.left) or signed_det(n.comparators[0]):
+                masks[id(n)] = n
+    if not masks:
+        return []
+    mask_names = {a.targets[0].id: a.value for a in assigns if id(a.value) in masks}
+    out = []
+
+    def is_mask(e):
+        if id(e) in masks:
+            return masks[id(e)]
+        if isinstance(e, ast.Name) and e.id in mask_names:
+            return mask_names[e.id]
+        return None
+
+    for n in ast.walk(fn_node):
+        m = None
+        if isinstance(n, ast.Subscript):
+            m = is_mask(n.slice)
+        elif isinstance(n, ast.Call) and ast.unparse(n.func) in ("np.where", "np.compress", "np.extract") and n.args:
+            m = is_mask(n.args[0])
+        elif isinstance(n, ast.BinOp) and isinstance(n.op, ast.Mult):
+            m = is_mask(n.left) or is_mask(n.right)
+        if m is not None and m not in out:
+            out.append(m)
+    return out
